@@ -711,6 +711,63 @@ func edgeDominatesRaw(fn *ssa.Function, e Edge, x *ssa.BasicBlock) bool {
 
 // ---- "cannot happen" guard clauses ----
 
+// onlyForMessage: the call takes no arguments besides its receiver and its
+// result goes nowhere but into the arguments of a logger / fmt call (it is
+// asked for a name, an address, a height to print).
+func onlyForMessage(call *ssa.Call, depth int) bool {
+	cc := call.Common()
+	n := len(cc.Args)
+	if !cc.IsInvoke() && cc.Signature().Recv() != nil {
+		n--
+	}
+	if n > 0 {
+		return false
+	}
+	if cc.Signature().Results().Len() != 1 {
+		return false
+	}
+	var sink func(v ssa.Value, d int) bool
+	sink = func(v ssa.Value, d int) bool {
+		refs := v.Referrers()
+		if refs == nil || len(*refs) == 0 || d > 4 {
+			return false
+		}
+		for _, r := range *refs {
+			switch x := r.(type) {
+			case *ssa.MakeInterface, *ssa.ChangeInterface, *ssa.ChangeType, *ssa.Convert:
+				if !sink(x.(ssa.Value), d+1) {
+					return false
+				}
+			case *ssa.Store:
+				// into the argument array of a variadic call
+				ia, ok := x.Addr.(*ssa.IndexAddr)
+				if !ok {
+					return false
+				}
+				if _, isAl := ia.X.(*ssa.Alloc); !isAl {
+					return false
+				}
+			case *ssa.Call:
+				c2 := x.Common()
+				if c2.IsInvoke() {
+					if nn, ok := c2.Value.Type().(*types.Named); ok && nn.Obj().Name() == "Logger" {
+						continue
+					}
+					return false
+				}
+				f := c2.StaticCallee()
+				if f == nil || f.Pkg == nil || f.Pkg.Pkg.Path() != "fmt" {
+					return false
+				}
+			default:
+				return false
+			}
+		}
+		return true
+	}
+	return sink(call, 0)
+}
+
 var nilGuardCache = map[*ssa.Function]Cut{}
 
 // DisableNilGuards switches the pruning of NilGuardEdges off (self-test).
@@ -734,7 +791,9 @@ func NilGuardEdges(fn *ssa.Function) Cut {
 	}
 	cut := Cut{}
 	nilGuardCache[fn] = cut
-	source := func(v ssa.Value) bool {
+	depthSrc := 0
+	var source func(v ssa.Value) bool
+	source = func(v ssa.Value) bool {
 		for i := 0; i < 4; i++ {
 			switch x := v.(type) {
 			case *ssa.ChangeType:
@@ -757,9 +816,21 @@ func NilGuardEdges(fn *ssa.Function) Cut {
 				return true
 			}
 			// element delivered by a range over a slice / map
-			_, isNext := x.Tuple.(*ssa.Next)
-			return isNext
+			if _, isNext := x.Tuple.(*ssa.Next); isNext {
+				return true
+			}
+			// a value received in a select arm / by a comma-ok receive
+			if _, isSel := x.Tuple.(*ssa.Select); isSel && x.Index >= 2 {
+				return true
+			}
+			if u, isU := x.Tuple.(*ssa.UnOp); isU && u.Op == token.ARROW && x.Index == 0 {
+				return true
+			}
+			return false
 		case *ssa.UnOp:
+			if x.Op == token.ARROW {
+				return true // a received value
+			}
 			if x.Op != token.MUL {
 				return false
 			}
@@ -767,13 +838,16 @@ func NilGuardEdges(fn *ssa.Function) Cut {
 			case *ssa.IndexAddr:
 				return true // s[i]
 			case *ssa.Alloc:
-				// a parameter spilled to a cell and never written again
+				// a parameter / call result kept in a cell (a local that a
+				// function literal captures) and never written again
 				sts := StoresTo(a)
-				if len(sts) != 1 {
+				if len(sts) != 1 || depthSrc > 2 {
 					return false
 				}
-				_, isP := sts[0].Val.(*ssa.Parameter)
-				return isP
+				depthSrc++
+				okS := source(sts[0].Val)
+				depthSrc--
+				return okS
 			}
 		case *ssa.Index, *ssa.Lookup:
 			return true
@@ -812,6 +886,9 @@ func NilGuardEdges(fn *ssa.Function) Cut {
 					if cc.Method.Name() == "Error" || cc.Method.Name() == "String" {
 						continue
 					}
+					if onlyForMessage(x, 0) {
+						continue // a getter called for the log line
+					}
 					return false
 				}
 				if f := cc.StaticCallee(); f != nil && f.Pkg != nil {
@@ -822,6 +899,9 @@ func NilGuardEdges(fn *ssa.Function) Cut {
 				}
 				if bi, ok := cc.Value.(*ssa.Builtin); ok && (bi.Name() == "len" || bi.Name() == "cap") {
 					continue
+				}
+				if onlyForMessage(x, 0) {
+					continue // a getter called for the log line
 				}
 				return false
 			case *ssa.Send, *ssa.Go, *ssa.Defer, *ssa.MapUpdate, *ssa.Select, *ssa.Panic, *ssa.RunDefers:
@@ -898,6 +978,31 @@ func NilGuardEdges(fn *ssa.Function) Cut {
 					return 1 - k
 				}
 			}
+		case *ssa.Extract:
+			// the ok of `v, ok := <-ch`, `v, ok := x.(T)`, `v, ok := m[k]`:
+			// "not ok" is the missing case
+			if x.Index != 1 {
+				if sel, isSel := x.Tuple.(*ssa.Select); !isSel || x.Index != 1 || !sel.Blocking {
+					return -1
+				}
+			}
+			switch t := x.Tuple.(type) {
+			case *ssa.Select:
+				return 1
+			case *ssa.UnOp:
+				if t.Op == token.ARROW && t.CommaOk {
+					return 1
+				}
+			case *ssa.TypeAssert:
+				if t.CommaOk {
+					return 1
+				}
+			case *ssa.Lookup:
+				if t.CommaOk {
+					return 1
+				}
+			}
+			return -1
 		case *ssa.Phi:
 			kind := -1
 			for _, e := range x.Edges {
